@@ -367,6 +367,36 @@ func runC15(c *core.Ctx) {
 			{"url-key-absent-encoded", func() drive.Out {
 				return drive.Call(func() error { return valid.Url(url.QueryEscape("http://h.example/p?other=x"), valid.RM{"k": text}) })
 			}},
+			// an absent key with several rules: the one clause is required's, with required's own message (or, below,
+			// its default wording) — whatever messages the skipped rules carry
+			{"map-key-absent-multi", func() drive.Out {
+				return drive.Call(func() error {
+					return valid.Map(map[string]string{"other": "x"}, valid.RM{"k": text + ",to=1~3|m_other,phone"})
+				})
+			}},
+			{"map-key-absent-multi-lead", func() drive.Out {
+				return drive.Call(func() error {
+					return valid.Map(map[string]string{"other": "x"}, valid.RM{"k": "to=1~3|其他 m_other," + text})
+				})
+			}},
+			{"url-key-absent-multi", func() drive.Out {
+				return drive.Call(func() error {
+					return valid.Url("http://h.example/p?other=x", valid.RM{"k": text + ",to=1~3,phone|m_other"})
+				})
+			}},
+			{"slice-map-key-absent-multi", func() drive.Out {
+				return drive.Call(func() error {
+					return valid.Map([]map[string]string{{"other": "x"}}, valid.RM{"k": "int|m_other," + text + ",le=3"})
+				})
+			}},
+			{"map-key-absent-bare-then-msg DEFAULT", func() drive.Out {
+				return drive.Call(func() error {
+					return valid.Map(map[string]string{"other": "x"}, valid.RM{"k": "required,to=1~3|" + msg})
+				})
+			}},
+			{"url-key-absent-bare-then-msg DEFAULT", func() drive.Out {
+				return drive.Call(func() error { return valid.Url("http://h.example/p?other=x", valid.RM{"k": "required,phone|" + msg}) })
+			}},
 			{"url-key-empty", func() drive.Out {
 				return drive.Call(func() error { return valid.Url("http://h.example/p?k=&other=x", valid.RM{"k": text}) })
 			}},
@@ -408,6 +438,13 @@ func runC15(c *core.Ctx) {
 			cls := clause.Parse(out.Err)
 			if out.Nil || len(cls) != 1 {
 				res.Violate(sg+"clause-count|"+strings.Fields(sh.name)[0], fmt.Sprintf("%s under %q returned %s (want exactly one clause)", sh.name, text, out), wit)
+				continue
+			}
+			if strings.HasSuffix(sh.name, " DEFAULT") {
+				// required carries no message here: its clause has the default wording, not the neighbour's message
+				if cl := cls[0]; cl.Text == msg || cl.Label != clause.LabelEn || cl.Text == "" {
+					res.Violate(sg+"default-wording-replaced|"+strings.Fields(sh.name)[0], fmt.Sprintf("%s: required without a message, followed by a rule with the message %q, returned %s; want required's default wording", sh.name, msg, out), wit)
+				}
 				continue
 			}
 			if cl := cls[0]; cl.Label != clause.LabelFor(msg) || cl.Text != msg {
@@ -587,4 +624,6 @@ func runC15(c *core.Ctx) {
 	_ = rand.Int
 }
 
-func classes2labelled(n string) bool { return n == "zh" || n == "en" || n == "cu" || n == "ns" || n == "group" }
+func classes2labelled(n string) bool {
+	return n == "zh" || n == "en" || n == "cu" || n == "ns" || n == "group"
+}
